@@ -6,6 +6,7 @@ PROP = dict(
         "hand-written Gallina model coq/Store/Model.v + Store/Conc.v of pkg/core/storage (MemCachedStore, MemoryStore, Bolt/LevelDB range seeks) "
         "and of dao.Simple.Seek/SeekAsync and the Storage.Find iterator keys (tied by correspondence only); it describes the code with "
         "fixes/F1 and fixes/F2 applied",
+        "hook /repo/pkg/core/storage/verif_hooks_leveldb.go (commit da60e0f): VerifCompactAll/VerifProperty; the harness waits out goleveldb's background compaction after every LevelDB base write and labels deviations that heal on close+reopen (finding F51)",
         "hook /repo/pkg/core/storage/verif_hooks.go (build tag verif, commit 82737bf): VerifRLock/VerifRUnlock/VerifWriterPending, used to queue a Persist and a reader on the store's lock in a known order; goroutine wait states read through runtime.Stack",
         "harness gate store (parks goroutines at the entry of Seek and entry/exit of PutChangeSet of the base store to play a chosen schedule; delegates unchanged)",
         "Go-side ordered-map oracle in harness/c09*.go: only labels the shape of a deviation for known_findings matching; the verdict is Coq's",
@@ -16,10 +17,10 @@ PROP = dict(
         "reader/Persist interleavings: one shared layer over a base store, full-depth seeks; private layers are not written while a seek on them is pending (violated by F10, not checked)",
     ],
     modelled="layered store, base range seeks, dao trimming and Persist lock regions modelled and proved; tied to Go by differential evaluation "
-             "(op histories on three backends, forced schedules); Go maps as sorted association lists, cont/ctx protocol as a lazily consumed list, SeekGC not modelled",
+             "(op histories on three backends, forced schedules); Go maps as sorted association lists, cont/ctx protocol as a lazily consumed list; two-map split, SeekGC, two shared layers and depth-limited readers are modelled (extension round)",
 )
 META = dict(
-    text="Proved in Coq for all stacks (any number of shared/private layers), all three backends, all op sequences and all ranges "
+    text="(Extension round: also proved — the mem/stor two-map mechanism is simulated by the one-map model (Seek needs a non-empty prefix, as the code does); SeekGC on the three backends and on a cache layer (= filter of the old map, atomic for readers); reader atomicity on two shared layers with the middle layer's Persist in flight and for depth-limited seeks; F41 bounded: every reported pair was that key's value at some instant of the reader's interval. New finding F51: LevelDB loses sight of a committed batch after a background compaction, third-party.) Proved in Coq for all stacks (any number of shared/private layers), all three backends, all op sequences and all ranges "
          "(prefix, start, direction, search depth, trimming on/off): Get and Seek/SeekAsync/dao.Seek/dao.SeekAsync/Storage.Find keys equal lookup / range_query on ONE "
          "ordered map (sorted, duplicate-free, nothing omitted); MemoryStore, LevelDB and Bolt seeks agree; every flush (each of Persist's three lock regions, PersistPrivate) "
          "leaves that map and hence every full-depth answer unchanged. The model follows the mechanism of performSeek and is tied to the Go code by differential "
